@@ -98,6 +98,7 @@ package scramblesuit
 //@   loop 1 invariant dhHsInv(hs) && privOK(hs.keypair) && hs != nil && fresh(hs) && fresh(hs.mac)
 //@   loop 1 invariant [C10:handshake_rx_bound] len(conn.receiveBuffer.content) <= 1531
 //@   ensures [C10:deadline_owned_by_the_caller] conn.Conn.deadline == old(conn.Conn.deadline) && conn.Conn.rdeadline == old(conn.Conn.rdeadline)
+//@   ensures [C15:keys_installed_on_success] err == nil ==> csOK(conn.txCrypto) && csOK(conn.rxCrypto) && conn.txCrypto.s.spos >= 0 && conn.rxCrypto.s.spos >= 0
 //@   ensures [C10:handshake_rx_bound] len(conn.receiveBuffer.content) <= 3079
 
 //@ func newScrambleSuitClientConn(conn, tStore, ca) (c, err)
@@ -106,3 +107,94 @@ package scramblesuit
 //@   modifies conn.*, blocked, now, tStore.store.*, file(tStore.filePath), fexists(tStore.filePath), crashed, csrand.Reader.*
 //@   ensures (err == nil) == (c != nil)
 //@   ensures [C10:handshake_timeout_disarmed] err == nil ==> conn.deadline == 0 && conn.rdeadline == 0
+//@   ensures [C15:connection_ready] err == nil ==> typeis(c, "*scramblesuit.ssConn") && payload(c) != nil && ssRx(c.(*ssConn)) && ssTx(c.(*ssConn)) && c.(*ssConn).lenDist.minValue == 21 && c.(*ssConn).lenDist.maxValue == 1448
+
+// ---- packet layer ----
+// A ScrambleSuit packet as an independent implementation reads it: MAC(16) | E(total(2) | payload(2) |
+// flags(1) | payload | zero padding), MAC = HMAC-SHA256-128 over the ciphertext, total <= 1427.
+//@ pred ssTx(conn) := conn != nil && csOK(conn.txCrypto) && conn.txCrypto.s.spos >= 0
+//@ func (*ssConn).makePayloadPacket(conn, w, data, padLen) (err)
+//@   serves C15 C10
+//@   requires ssTx(conn) && typeis(w, "*bytes.Buffer") && payload(w) != nil && 0 <= padLen && padLen <= 1427 && len(data) <= 1427
+//@   panics_if len(data) + padLen > 1427
+//@   modifies w.(*bytes.Buffer).content, conn.txCrypto.s.spos, conn.txCrypto.mac.absorbed
+//@   ghost W0 := w.(*bytes.Buffer).content
+//@   ghost POS := conn.txCrypto.s.spos
+//@   ghost TOTAL := len(data) + padLen
+//@   ensures [C15:packet_never_fails] err == nil
+//@   ensures [C15:packet_size] len(w.(*bytes.Buffer).content) == len(W0) + 21 + TOTAL && sub(w.(*bytes.Buffer).content, 0, len(W0)) == W0 && conn.txCrypto.s.spos == POS + 5 + TOTAL
+//@   ensures [C15:packet_mac_over_ciphertext] sub(w.(*bytes.Buffer).content, len(W0), len(W0) + 16) == sub(HASH(1, conn.txCrypto.mac.hkey, sub(w.(*bytes.Buffer).content, len(W0) + 16, len(W0) + 21 + TOTAL)), 0, 16)
+//@   ensures [C15:packet_header] CTR(conn.txCrypto.s.skey, conn.txCrypto.s.siv, POS, sub(w.(*bytes.Buffer).content, len(W0) + 16, len(W0) + 18)) == be16(TOTAL)
+//@       && CTR(conn.txCrypto.s.skey, conn.txCrypto.s.siv, POS + 2, sub(w.(*bytes.Buffer).content, len(W0) + 18, len(W0) + 20)) == be16(len(data))
+//@       && CTR(conn.txCrypto.s.skey, conn.txCrypto.s.siv, POS + 4, sub(w.(*bytes.Buffer).content, len(W0) + 20, len(W0) + 21)) == bbyte(1)
+//@   ensures [C15:packet_payload] CTR(conn.txCrypto.s.skey, conn.txCrypto.s.siv, POS + 5, sub(w.(*bytes.Buffer).content, len(W0) + 21, len(W0) + 21 + len(data))) == seq(data)
+//@   ensures unchanged(conn.txCrypto.s.skey, conn.txCrypto.s.siv, conn.txCrypto.mac.hkey) && ssTx(conn)
+
+// Padding arithmetic: after the burst is padded its last segment is sampleLen bytes long (mod 1448) when one
+// padding packet suffices; with two packets the code deliberately reproduces the reference implementation,
+// which accounts for only one of the two packet headers (the tail is then sampleLen - 21).
+//@ func (*ssConn).padBurst(conn, burst, sampleLen) (err)
+//@   serves C15 C10
+//@   requires ssTx(conn) && burst != nil && whole(burst) && 0 <= sampleLen && sampleLen <= 1448
+//@   modifies burst.content, conn.txCrypto.s.spos, conn.txCrypto.mac.absorbed
+//@   ghost B0 := burst.content
+//@   ensures [C15:padding_never_fails] err == nil
+//@   ensures [C15:burst_tail_is_the_sample] ((len(burst.content) - sampleLen) % 1448 == 0 || (len(burst.content) - sampleLen + 21) % 1448 == 0) && sub(burst.content, 0, len(B0)) == B0
+//@   ensures [C15:padding_bounded] len(B0) <= len(burst.content) && len(burst.content) - len(B0) <= 1448 + 21
+//@   ensures ssTx(conn) && unchanged(conn.txCrypto.s.skey, conn.txCrypto.s.siv, conn.txCrypto.mac.hkey)
+
+// Write: the application bytes are cut, in order, into packets of at most 1427 payload bytes; the burst
+// is padded and written with ONE write; n counts exactly the application bytes.
+//@ func (*ssConn).Write(conn, b) (n, err)
+//@   serves C15 C10
+//@   requires ssTx(conn) && conn.Conn != nil && conn.lenDist != nil && wdInv(conn.lenDist) && conn.lenDist.minValue == 21 && conn.lenDist.maxValue == 1448 && !typeis(conn.Conn, "*scramblesuit.ssConn")
+//@   modifies conn.txCrypto.s.spos, conn.txCrypto.mac.absorbed, conn.Conn.wr, conn.Conn.nwrites
+//@   loop 1 invariant ssTx(conn) && 0 <= toSend && toSend == len(p) && n + toSend == len(b) && base(p) == base(b) && offset(p) == offset(b) + n && unchanged(conn.txCrypto.s.skey, conn.txCrypto.s.siv, conn.txCrypto.mac.hkey, conn.Conn.wr, conn.Conn.nwrites)
+//@   loop 1 invariant [C15:every_byte_packetised_once] len(frameBuf.content) >= n + 21 * ((n + 1426) / 1427) && conn.txCrypto.s.spos >= old(conn.txCrypto.s.spos) + n
+//@   loop 1 decreases toSend
+//@   ensures [C15:write_counts_the_payload] err == nil ==> n == len(b)
+//@   ensures [C15:one_write_per_burst] conn.Conn.nwrites <= old(conn.Conn.nwrites) + 1
+//@   ensures ssTx(conn) && unchanged(conn.txCrypto.s.skey, conn.txCrypto.s.siv, conn.txCrypto.mac.hkey)
+
+// ---- receive side ----
+//@ pred ssRx(conn) := conn != nil && conn.Conn != nil && csOK(conn.rxCrypto) && conn.rxCrypto.s.spos >= 0 && conn.receiveBuffer != nil && whole(conn.receiveBuffer) && conn.receiveDecodedBuffer != nil && whole(conn.receiveDecodedBuffer)
+//@     && conn.receiveBuffer != conn.receiveDecodedBuffer && conn.lenDist != nil && rangeOK(conn.lenDist) && conn.ticketStore != nil && !typeis(conn.Conn, "*scramblesuit.ssConn")
+//@     && (conn.receiveState.mac != nil ==> len(conn.receiveState.mac) == 16)
+//@     && (conn.receiveState.hdr != nil ==> len(conn.receiveState.hdr) == 5 && conn.receiveState.mac != nil && 0 <= conn.receiveState.payloadLen && conn.receiveState.payloadLen <= conn.receiveState.totalLen && conn.receiveState.totalLen <= 1427)
+//@     && (conn.receiveState.hdr == nil ==> conn.receiveState.totalLen == 0 && conn.receiveState.payloadLen == 0)
+
+//@ func (*ssTicketStore).storeTicket(s, addr, rawT) ()
+//@   serves C15
+//@   nobody stores the ticket and checkpoints the store; only the frame is stated
+//@   requires s != nil
+//@   modifies s.store.*, file(s.filePath), fexists(s.filePath), crashed, now
+
+// readPackets: one network read, then as many complete packets as are buffered.  Only the payload of a
+// packet whose MAC (over the ciphertext, with the receive key) verified is surfaced, in order; a packet
+// that fails any check ends the connection with ErrInvalidPacket.
+//@ func (*ssConn).readPackets(conn) (err)
+//@   serves C15 C10
+//@   requires ssRx(conn)
+//@   modifies conn.receiveBuffer.content, conn.receiveDecodedBuffer.content, conn.receiveState.mac, conn.receiveState.hdr, conn.receiveState.totalLen, conn.receiveState.payloadLen, conn.rxCrypto.s.spos, conn.rxCrypto.mac.absorbed
+//@   modifies conn.Conn.rd, conn.Conn.nreads, blocked, now, conn.lenDist.values, conn.lenDist.weights, conn.lenDist.alias, conn.lenDist.prob, conn.ticketStore.store.*, file(conn.ticketStore.filePath), fexists(conn.ticketStore.filePath), crashed
+//@   ghost D0 := conn.receiveDecodedBuffer.content
+//@   ghost R0 := conn.receiveBuffer.content
+//@   loop 1 invariant ssRx(conn) && len(conn.receiveDecodedBuffer.content) >= len(D0) && sub(conn.receiveDecodedBuffer.content, 0, len(D0)) == D0
+//@   loop 1 invariant [C10:rx_bound] len(conn.receiveBuffer.content) <= len(R0) + 1448
+//@   assert_at Buffer).Write#2 [C15:only_authenticated_payload_surfaces] arg0 == conn.receiveDecodedBuffer && len(arg1) == conn.receiveState.payloadLen && at(seq(conn.receiveState.hdr), 4) == 1 && seq(cmpMAC) == seq(conn.receiveState.mac)
+//@   ensures [C15:decoded_only_grows] len(conn.receiveDecodedBuffer.content) >= len(D0) && sub(conn.receiveDecodedBuffer.content, 0, len(D0)) == D0
+//@   ensures [C10:rx_bound] len(conn.receiveBuffer.content) <= len(R0) + 1448
+//@   ensures err == nil || err != ErrInvalidPacket ==> ssRx(conn)
+
+// Read: serves buffered payload first (no network access while payload is buffered), in order.
+//@ func (*ssConn).Read(conn, b) (n, err)
+//@   serves C15 C10
+//@   requires ssRx(conn)
+//@   modifies conn.receiveBuffer.content, conn.receiveDecodedBuffer.content, conn.receiveState.mac, conn.receiveState.hdr, conn.receiveState.totalLen, conn.receiveState.payloadLen, conn.rxCrypto.s.spos, conn.rxCrypto.mac.absorbed, elems(b)
+//@   modifies conn.Conn.rd, conn.Conn.nreads, blocked, now, conn.lenDist.values, conn.lenDist.weights, conn.lenDist.alias, conn.lenDist.prob, conn.ticketStore.store.*, file(conn.ticketStore.filePath), fexists(conn.ticketStore.filePath), crashed
+//@   ghost D0 := conn.receiveDecodedBuffer.content
+//@   loop 1 invariant ssRx(conn) && err == nil && len(conn.receiveDecodedBuffer.content) >= len(D0) && sub(conn.receiveDecodedBuffer.content, 0, len(D0)) == D0
+//@   loop 1 invariant len(D0) > 0 ==> conn.receiveDecodedBuffer.content == D0 && blocked == old(blocked)
+//@   ensures 0 <= n && n <= len(b)
+//@   ensures [C15:buffered_payload_first] len(D0) > 0 ==> blocked == old(blocked) && n == min(len(b), len(D0)) && seq(b[0:n]) == sub(D0, 0, n) && conn.receiveDecodedBuffer.content == sub(D0, n, len(D0)) && err == nil
+//@   ensures [C15:nothing_lost] len(D0) == 0 ==> n <= len(b)
